@@ -607,7 +607,6 @@ func (f *Frame) evalCall(e *CExpr, env *Env) *Val {
 	case "old":
 		nenv := *env
 		nenv.State = env.Old
-		nenv.Result = nil
 		return f.evalC(e.Args[0], &nenv)
 	case "has":
 		m, k := arg(0), arg(1)
@@ -707,7 +706,14 @@ func (f *Frame) evalCall(e *CExpr, env *Env) *Val {
 		for i := 1; i < len(e.Args); i++ {
 			args = append(args, arg(i))
 		}
-		return f.detApply(key, args)
+		return f.detApply(key, key, args)
+	case "abs":
+		// abs(name, F, args...): an uninterpreted function `name` with the result type of F
+		var args []*Val
+		for i := 2; i < len(e.Args); i++ {
+			args = append(args, arg(i))
+		}
+		return f.detApply(e.Args[1].String(), "abs$"+e.Args[0].Name, args)
 	case "as":
 		a := arg(0)
 		tn := e.Args[1].String()
@@ -810,9 +816,9 @@ func (f *Frame) evalCall(e *CExpr, env *Env) *Val {
 		}
 	case "alloc":
 		a := arg(0)
-		al := env.State.Get(allocKey, ArrayS(IntS, BoolS))
+		al := env.State.Get(allocKey, allocSort)
 		f.E.noteVars(al)
-		return boolVal(Select(al, a.X))
+		return boolVal(allocatedIn(al, a.X))
 	case "inv":
 		// inv(x) / inv(x, label): the type invariant(s) of x's struct type, instantiated for x
 		a := arg(0)
@@ -924,7 +930,7 @@ func (f *Frame) evalCall(e *CExpr, env *Env) *Val {
 
 
 // detApply: the deterministic abstraction of a function: an uninterpreted function of its argument leaves.
-func (f *Frame) detApply(key string, args []*Val) *Val {
+func (f *Frame) detApply(key, symbol string, args []*Val) *Val {
 	e := f.E
 	var rt types.Type
 	pick := func(rs *types.Tuple) types.Type {
@@ -943,7 +949,11 @@ func (f *Frame) detApply(key string, args []*Val) *Val {
 	} else {
 		e.fail("fn(%s): unknown function", key)
 	}
-	e.Assumes["deterministic abstraction of "+key+": its result is a function of its arguments (the heap it reads is not changed between the compared calls)"] = true
+	if symbol == key {
+		e.Assumes["deterministic abstraction of "+key+": its result is a function of its arguments (the heap it reads is not changed between the compared calls)"] = true
+	} else {
+		e.Assumes["abstraction "+symbol+" of "+key+": its result is a function of the listed arguments only"] = true
+	}
 	var ts []*Term
 	var sorts []*Sort
 	for _, a := range args {
@@ -963,7 +973,7 @@ func (f *Frame) detApply(key string, args []*Val) *Val {
 	ls := leavesOf(rt, e.Mode)
 	out := make([]*Term, len(ls))
 	for i, l := range ls {
-		name := fmt.Sprintf("fn$%s$%d", key, i)
+		name := fmt.Sprintf("fn$%s$%d", symbol, i)
 		e.declareFunSorted(name, sorts, l.sort)
 		out[i] = App(name, l.sort, ts...)
 	}
